@@ -114,6 +114,16 @@ Definition rows_fit (t : option table) (rows : list (list value)) : res bool :=
   | Some t => match validate_new_rows t rows with Ok _ => Ok true | Err => Ok false | Panic => Panic end
   end.
 
+(* a package without a _Validation table has nowhere to record a range, foreign key, category or enumeration
+   (cells 3..8 of the validation row): the repaired create_table refuses them (unless it is creating _Validation) *)
+Definition needs_validation (vrow : list (list value)) : bool :=
+  existsb (fun r => existsb (fun v => match v with VNull => false | _ => true end) (firstn 6 (skipn 3 r))) vrow.
+Definition vrows_fit (tname : str) (t : option table) (vrow : list (list value)) : res bool :=
+  match t with
+  | Some _ => rows_fit t vrow
+  | None => Ok (negb (CREATE_TABLE_REFUSES_UNRECORDABLE && negb (str_eqb tname VALIDATION_TABLE_NAME) && needs_validation vrow))
+  end.
+
 Definition pkg_create_table (prof : profile) (k : pkg) (tname : str) (cols : list column) : pkg * res unit :=
   if negb (is_valid_tname tname) then (k, Err)
   else if existsb (str_eqb tname) CREATE_TABLE_EXTRA_RESERVED then (k, Err)
@@ -128,7 +138,7 @@ Definition pkg_create_table (prof : profile) (k : pkg) (tname : str) (cols : lis
     (* the catalog tables must be able to describe the table before anything is changed *)
     match rows_fit (find_table (k_tabs k) COLUMNS_TABLE_NAME) crow,
           rows_fit (find_table (k_tabs k) TABLES_TABLE_NAME) trow,
-          rows_fit (find_table (k_tabs k) VALIDATION_TABLE_NAME) vrow with
+          vrows_fit tname (find_table (k_tabs k) VALIDATION_TABLE_NAME) vrow with
     | Ok true, Ok true, Ok true =>
         let '(k1, r1) := pkg_insert prof k COLUMNS_TABLE_NAME crow in
         match r1 with Ok _ =>
